@@ -97,6 +97,19 @@ pub fn write_rtobject(o: Rc<dyn RTObject>) -> Result<serde_json::Value, StoryErr
     }
 
     if let Some(v) = Value::get_value::<f32>(o.as_ref()) {
+        // JSON has no number for these (json!() would write null, which cannot be read back).
+        // An infinity is written as a number beyond the range of f32: every reader that
+        // narrows it to f32 gets the infinity again. NaN is written as text.
+        if v.is_infinite() {
+            return Ok(json!(if v > 0.0 { 1e39_f64 } else { -1e39_f64 }));
+        }
+
+        if v.is_nan() {
+            let mut jobj: Map<String, serde_json::Value> = Map::new();
+            jobj.insert("^f".to_owned(), json!("NaN"));
+            return Ok(serde_json::Value::Object(jobj));
+        }
+
         return Ok(json!(v));
     }
 
